@@ -766,7 +766,9 @@ def eval_sys_read(klong):
         return None
     else:
         i,a = kg_read_array(r, 0, klong._backend, module=klong.current_module(), read_neg=True)
-        f.raw.seek(k+i,0)
+        # i counts characters; offsets of a text file do not (multi-byte characters)
+        f.raw.seek(k,0)
+        f.raw.read(i)
         return _read_data_object(klong, a)
 
 
